@@ -57,7 +57,14 @@ func NewUintListDecoder(reuseRecords bool) *UintListDecoder {
 	return d
 }
 
+// maxUintListPrealloc bounds the capacity reserved up front for a list whose length was read
+// from (possibly hostile) input: beyond it the slice grows as the numbers actually arrive
+const maxUintListPrealloc = 1024
+
 func (d *UintListDecoder) makeUintSlice(n uint32) []uint32 {
+	if n > maxUintListPrealloc {
+		n = maxUintListPrealloc
+	}
 	if d.sl == nil {
 		return make([]uint32, 0, n)
 	}
